@@ -5,6 +5,7 @@
 # tree; evidence then goes to .work/<id>/mut-evidence instead of /verif/evidence.
 set -u
 cd "$(dirname "$0")"
+export VERIF_ROOT=${VERIF_ROOT:-$PWD}
 export GOFLAGS=-mod=mod GOPROXY=off GOSUMDB=off GOTOOLCHAIN=local
 ID=$1; TIER=${2:-${VERIF_TIER:-quick}}; shift; shift 2>/dev/null
 id=$(echo "$ID" | tr 'A-Z' 'a-z')
